@@ -139,7 +139,7 @@ func c30Model(c *ev.Ctx, r *rand.Rand, caseN int) {
 }
 
 func c30Blocking(c *ev.Ctx, r *rand.Rand, caseN int) {
-	kind := caseN % 8
+	kind := caseN % 9
 	T := time.Duration(60+r.Intn(60)) * time.Millisecond
 	const margin = time.Second
 	scenario := func() (string, map[string]interface{}) {
@@ -204,6 +204,37 @@ func c30Blocking(c *ev.Ctx, r *rand.Rand, caseN int) {
 			if p := s.Processing(); p.Num != 3 || p.Size != 80 {
 				d["processing"] = p.String()
 				return "held-amount-wrong-after-grant", d
+			}
+		case 8: // a request as large as the whole capacity (in one dimension) waits until everything is released, then is granted
+			req := c30m(4, 10)
+			if caseN/9%2 == 1 {
+				req = c30m(1, 100)
+			}
+			go func() { res <- s.Acquire(req, 10*time.Second) }()
+			time.Sleep(T / 3)
+			select {
+			case ok := <-res:
+				d["returned"], d["after"] = ok, took().String()
+				if ok {
+					return "request-granted-beyond-capacity", d
+				}
+				return "capacity-sized-request-refused-instead-of-waiting", d
+			default:
+			}
+			rel := time.Now()
+			s.Release(c30m(3, 60))
+			select {
+			case ok := <-res:
+				d["returned"], d["after_release"] = ok, time.Since(rel).String()
+				if !ok {
+					return "capacity-sized-request-refused-instead-of-waiting", d
+				}
+				if time.Since(rel) > margin {
+					return "waiting-request-granted-too-late", d
+				}
+			case <-time.After(4 * time.Second):
+				s.Terminate()
+				return "waiting-request-not-granted-after-sufficient-release", d
 			}
 		case 3, 4: // no release at all (3) / releases that never suffice and stop early (4): false at about T
 			go func() { res <- s.Acquire(c30m(2, 50), T) }()
@@ -330,7 +361,7 @@ func c30Blocking(c *ev.Ctx, r *rand.Rand, caseN int) {
 	c.Eval(1)
 	c.Count(fmt.Sprintf("blocking_scenarios_kind_%d", kind), 1)
 	if cls != "" {
-		detail["scenario_kind"] = []string{"fits", "oversize", "granted after release", "no release", "insufficient releases", "terminate", "two waiters with different timeouts", "over-release while a request waits"}[kind]
+		detail["scenario_kind"] = []string{"fits", "oversize", "granted after release", "no release", "insufficient releases", "terminate", "two waiters with different timeouts", "over-release while a request waits", "request as large as the capacity"}[kind]
 		c.Violation(cls, detail)
 		return
 	}
